@@ -398,6 +398,9 @@ fn run_job(args: &Args, job: &Value, seq: usize) -> Value {
         let outs: Vec<Value> = hs.into_iter().map(|h| h.join().unwrap_or(json!({"panic": "join"}))).collect();
         out["res"] = json!({"outs": outs});
         out["snap_after"] = json!(tree::snapshot(&sb));
+        if let Some(prs) = job.get("post_raws").and_then(|p| p.as_array()) {
+            out["post_raws"] = json!(prs.iter().map(|pr| raw_openat2(&rootpath, pr)).collect::<Vec<_>>());
+        }
         drop(root);
         let _ = std::process::Command::new("chmod").arg("-R").arg("u+rwx").arg(&sb).status();
         let _ = std::fs::remove_dir_all(&sb);
@@ -645,6 +648,10 @@ fn run_job(args: &Args, job: &Value, seq: usize) -> Value {
     }
     if let Some(d) = &snapdir {
         out["snap_after"] = json!(tree::snapshot(d));
+    }
+    // the kernel's resolution of a path in the tree as the operation left it
+    if let Some(pr) = job.get("post_raw") {
+        out["post_raw"] = raw_openat2(&rootpath, pr);
     }
     drop(root);
     drop(handle);
